@@ -1073,9 +1073,11 @@ func (c *Conn) handleBdat(arg string) {
 
 	c.bytesReceived += int64(size)
 
-	if last {
-		c.lineLimitReader.LineLimit = c.server.MaxLineLength
+	// The chunk is over: command lines are limited in length again, also
+	// between the chunks of a message.
+	c.lineLimitReader.LineLimit = c.server.MaxLineLength
 
+	if last {
 		c.bdatPipe.Close()
 
 		err := <-c.dataResult
